@@ -478,7 +478,11 @@ class KademliaProtocol(DatagramProtocol):
             elif response_datagram.node_id == self.node_id:
                 future.set_exception(RemoteException("incoming message is from our node id"))
                 return
-            peer = make_kademlia_peer(response_datagram.node_id, address[0], address[1])
+            try:
+                peer = make_kademlia_peer(response_datagram.node_id, address[0], address[1])
+            except ValueError as err:
+                log.warning("ignoring response from %s:%i: %s", address[0], address[1], str(err))
+                return
             self.peer_manager.report_last_replied(address[0], address[1])
             self.peer_manager.update_contact_triple(peer.node_id, address[0], address[1])
             if not future.cancelled():
